@@ -88,8 +88,16 @@ def loop_cursors(repo, chk, oid):
                     continue
                 # used outside its own updates, inside the loop, in a position that is read before the (first) update of the iteration?
                 uses = []
+                lpar = parents(lp)
                 for n in ast.walk(lp):
                     if isinstance(n, ast.Name) and n.id == var and isinstance(n.ctx, ast.Load):
+                        # only a cursor that positions a *read* (v[cursor]) can make later iterations read the wrong rows / counts;
+                        # a fill cursor (buffer[cursor] = ...) is advanced only when something is stored
+                        sub = lpar.get(n)
+                        while sub is not None and not isinstance(sub, (ast.Subscript, ast.stmt)):
+                            sub = lpar.get(sub)
+                        if not (isinstance(sub, ast.Subscript) and isinstance(sub.ctx, ast.Load) and any(x is n for x in ast.walk(sub.slice))):
+                            continue
                         own_update = any(any(x is n for x in ast.walk(d)) and isinstance(d, ast.AugAssign) for d in defs)
                         # reads inside a plain re-assignment `var = f(var)` count as own update too
                         own_update = own_update or any(any(x is n for x in ast.walk(d.value)) for d in defs if isinstance(d, ast.Assign))
@@ -210,8 +218,7 @@ def self_pair_test(repo, chk, oid):
             other = [x for x in t[1] if x != ('name', flag)][0]
             from ..terms import Canon, Scope
             neg = Canon(m, Scope(None))._not(other)
-            exact_forms = _exact_forms(E)
-            if neg in exact_forms:
+            if is_exact_identity(neg, E, repo):
                 chk.ok(oid + 'a', 'identity-test', fn.site(ce[0]), ast.unparse(arg5), 'the correction is on iff requested and the vectors are not identical (exact element-wise identity test)')
                 return
             chk.unsure(oid + 'a', 'identity-test', fn.site(ce[0]), ast.unparse(arg5), 'cannot classify the predicate combined with the correction flag')
@@ -230,7 +237,7 @@ def self_pair_test(repo, chk, oid):
             chk.bad(oid + 'b', 'identity-test', fn.site(s), ast.unparse(s), f'the correction flag is changed other than by `if <identical>: {flag} = False`: the correction no longer applies exactly to non-identical pairs')
             continue
         t = term_of(fn, g.test, {Xp: ('role', 'X'), Yp: ('role', 'Y')}, inline=True)
-        if t in exact:
+        if is_exact_identity(t, E, repo):
             chk.ok(oid + 'a', 'identity-test', fn.site(g), ast.unparse(g.test), 'exact element-wise identity test (no cancelling reduction, no arithmetic on codes that could cancel)')
             continue
         txt = show(t)
@@ -397,6 +404,53 @@ def sampling_guard(repo, chk, oid):
                    'the sampling must be guarded by exactly `approximation_factor < 1.0`: otherwise rows are dropped (quota int(n/#values) per stratum) even when no subsampling is requested')
     if not samp:
         chk.ok(oid, 'R14', fn.site(), 'no sampling call', 'no subsampling in the estimator')
+
+
+def elementwise_equality_helper(f):
+    """f(a, b) returns False when the lengths differ (optional) or some position differs, True otherwise:
+         [if len(a) != len(b): return False]; for i in range(len(a)): if a[i] != b[i]: return False; return True"""
+    if f is None or len(f.params) != 2:
+        return False
+    a, b = f.params
+    m = f.module
+    E = lambda src: expected_term(m, src)
+    body = [st for st in f.node.body if not (isinstance(st, ast.Expr) and isinstance(st.value, ast.Constant))]
+    if not body or not (isinstance(body[-1], ast.Return) and isinstance(body[-1].value, ast.Constant) and body[-1].value.value is True):
+        return False
+    seen_loop = False
+    for st in body[:-1]:
+        ret_false = lambda blk: len(blk) == 1 and isinstance(blk[0], ast.Return) and isinstance(blk[0].value, ast.Constant) and blk[0].value.value is False
+        if isinstance(st, ast.If) and not st.orelse and ret_false(st.body):
+            t = term_of(f, st.test, inline=True)
+            if t in (E(f'len({a}) != len({b})'), E(f'{a}.shape != {b}.shape'), E(f'{a}.size != {b}.size')):
+                continue
+            return False
+        if isinstance(st, ast.For) and not st.orelse and isinstance(st.target, ast.Name) and len(st.body) == 1:
+            i = st.target.id
+            it = term_of(f, st.iter, inline=True)
+            inner = st.body[0]
+            if it in (E(f'range(len({a}))'), E(f'range(len({b}))'), E(f'numba.prange(len({a}))')) and isinstance(inner, ast.If) and not inner.orelse and ret_false(inner.body) \
+                    and term_of(f, inner.test, inline=True) in (E(f'{a}[{i}] != {b}[{i}]'), E(f'{b}[{i}] != {a}[{i}]')):
+                seen_loop = True
+                continue
+            return False
+        return False
+    return seen_loop
+
+
+def is_exact_identity(t, E, repo):
+    """t (over the roles X, Y) is an exact element-wise identity test of the two vectors"""
+    if t in _exact_forms(E):
+        return True
+    if t[0] == 'and':
+        shape_tests = []
+        for a, b in (('X', 'Y'), ('Y', 'X')):
+            shape_tests += [E(f'len({a}) == len({b})'), E(f'{a}.shape == {b}.shape'), E(f'{a}.size == {b}.size')]
+        rest = [x for x in t[1] if x not in shape_tests]
+        return len(rest) == 1 and is_exact_identity(rest[0], E, repo)
+    if t[0] == 'call' and t[1][0] == 'lib' and not t[3] and sorted(t[2], key=repr) == sorted([('role', 'X'), ('role', 'Y')], key=repr):
+        return elementwise_equality_helper(repo.find_func(t[1][1]))
+    return False
 
 
 def _exact_forms(E):
